@@ -25,8 +25,6 @@ Record c17_step := Step {
 
 Record c17_case := Case { k_init : state; k_steps : list c17_step }.
 
-(** per-case table of byte strings; the case terms refer to its entries by index *)
-Definition c17_tbl (l : list bytes) (i : N) : bytes := nth (N.to_nat i) l [].
 
 Definition obeq (a b : option bytes) : bool :=
   match a, b with
